@@ -22,6 +22,8 @@ type Case struct {
 	Family string           `json:"family,omitempty"`
 	// the modules are declared from the last to the first (every reference points forward in the list)
 	Reversed bool `json:"reversed,omitempty"`
+	// pipeline half: build the executors of the staged graph through the real pipeline (executors.go)
+	Executors bool `json:"executors,omitempty"`
 }
 
 func describe(g modgen.GraphSpec) string {
@@ -78,6 +80,9 @@ func inputsExistAtInit(g modgen.GraphSpec, i int) bool {
 }
 
 func Eval(cs Case) (*core.Fail, bool) {
+	if cs.Executors {
+		return evalExecutors(cs)
+	}
 	g := cs.Graph
 	mods := g.Build()
 	if cs.Reversed {
@@ -206,6 +211,15 @@ func fmtStages(st exec.ExecutionStages) string {
 
 var _ = pbsubstreams.ModuleKindMap
 
+func hasIndex(g modgen.GraphSpec) bool {
+	for _, m := range g {
+		if m.Kind == modgen.KIndex {
+			return true
+		}
+	}
+	return false
+}
+
 func Run(ctx *core.Ctx) int {
 	ctx.Level = "exploration"
 	ctx.CaseTimeout = 30 * time.Second
@@ -237,6 +251,9 @@ func Run(ctx *core.Ctx) int {
 						if prod && !emit(Case{Graph: g, Output: out, Prod: prod, Reversed: true}) {
 							return false
 						}
+						if prod && hasIndex(g) && !emit(Case{Graph: g, Output: out, Prod: prod, Executors: true}) {
+							return false
+						}
 					}
 				}
 				return true
@@ -256,7 +273,7 @@ func Run(ctx *core.Ctx) int {
 			graphs++
 			for out := range g {
 				for _, prod := range []bool{false, true} {
-					if !emit(Case{Graph: g, Output: out, Prod: prod, Family: n}) || !emit(Case{Graph: g, Output: out, Prod: prod, Family: n, Reversed: true}) {
+					if !emit(Case{Graph: g, Output: out, Prod: prod, Family: n}) || !emit(Case{Graph: g, Output: out, Prod: prod, Family: n, Reversed: true}) || !emit(Case{Graph: g, Output: out, Prod: prod, Family: n, Executors: true}) {
 						return
 					}
 				}
@@ -269,7 +286,7 @@ func Run(ctx *core.Ctx) int {
 	ctx.Cov["graphs"] = graphs
 	ctx.Cov["distinct_nontrivial"] = st.NonTrivial
 	ctx.Cov["exhaustive"] = true
-	ctx.Cov["rule"] = "module lists declared in dependency order and (production mode; families: both modes) in reverse order, where every reference points forward; every module list of n<=3 (thorough: + n=4 with inits {0,5} and no params, n=5 with one initial block, sources {none,block}, no deltas) over kind {map,store,index} x source {none,block,clock} x params-first x inputs subset of earlier modules (map input; store input get/deltas) x block filter {none, an earlier index} x initial block {0,1,5}; plus 6 families of 4-8 modules (ladder, diamond, wide store layer, index fan-out, mixed); every module as output, both modes. Only graphs accepted by the real ValidateModules + NewModuleGraph are judged. Oracle: independent DFS closure; staged exactly once; every input/filter dependency in a strictly earlier layer; layers homogeneous; store layers close their stage; staging errors exactly when a needed module has no input at its initial block; 30 s watchdog per case. Non-trivial: >=2 layers and a store."
+	ctx.Cov["rule"] = "pipeline half: for every graph with a block-index module (production mode) and every family graph, the executors are built through the real pipeline.New/Init/BuildModuleExecutors for every subset of index modules whose index already exists: the staging is left unchanged, every staged module has exactly one executor in the group and order of its layer, precomputed index modules have none. Staging half: module lists declared in dependency order and (production mode; families: both modes) in reverse order, where every reference points forward; every module list of n<=3 (thorough: + n=4 with inits {0,5} and no params, n=5 with one initial block, sources {none,block}, no deltas) over kind {map,store,index} x source {none,block,clock} x params-first x inputs subset of earlier modules (map input; store input get/deltas) x block filter {none, an earlier index} x initial block {0,1,5}; plus 6 families of 4-8 modules (ladder, diamond, wide store layer, index fan-out, mixed); every module as output, both modes. Only graphs accepted by the real ValidateModules + NewModuleGraph are judged. Oracle: independent DFS closure; staged exactly once; every input/filter dependency in a strictly earlier layer; layers homogeneous; store layers close their stage; staging errors exactly when a needed module has no input at its initial block; 30 s watchdog per case. Non-trivial: >=2 layers and a store."
 	ctx.Assume = []string{"first streamable block 0", "wall-clock watchdog of 30 s per case (normal latency: microseconds)"}
 	return ctx.Finish(core.JSONRecheck(ctx.Prop, Eval))
 }
